@@ -302,6 +302,9 @@ def main(mod):
                 b.setdefault("env", {})["VERIF_LOGLEVEL"] = "DEBUG"
             elif i % 8 == 5:
                 b.setdefault("env", {})["PYTHONOPTIMIZE"] = "1"
+            elif i % 8 == 7:
+                # warnings raised on behalf of the repository's modules become errors (python -W error / pytest filterwarnings=error)
+                b.setdefault("env", {})["VERIF_WARNINGS"] = "error"
     # wall-clock watchdog per batch: generous (its firing is 'inconclusive', never a verdict), 4x in the thorough tier
     wd = getattr(mod, "TIMEOUT", 900) * (4 if args.tier == "thorough" else 1)
     for b in batches:
